@@ -90,6 +90,8 @@ pub mod congestion;
 
 #[cfg(feature = "verif-hooks")]
 pub mod verif;
+#[cfg(feature = "verif-hooks")]
+pub mod verif_codec;
 
 mod cid_generator;
 pub use crate::cid_generator::{
